@@ -171,6 +171,8 @@ list of corrections and one delimiter suffix). -/
 def RoundTrips (os : Str) (suf : Str) (cs : List Correction) : Prop :=
   (parseFile os (writeTests suf cs)).map Entry.skey = cs.map Correction.skey
 
+instance (os suf : Str) (cs : List Correction) : Decidable (RoundTrips os suf cs) := by unfold RoundTrips; infer_instance
+
 /-
 OPEN (full strength, FALSE for the faithful model of the unchanged code — see the witnesses below):
 theorem update_preserves (os : Str) (orc : Oracle) (f : Str) :
@@ -257,14 +259,16 @@ OPEN: theorem update_idempotent : updateFile fx os orc (updateFile fx os orc f) 
 Both are decided by the judge on every real case (clauses `format-normalize`, `idempotent`).
 -/
 
-def sxTwoQuoted : Str := "(p (ERROR (UNEXPECTED '?')) (i) (ERROR (UNEXPECTED '?')) (i))".toList
+def sxTwoQuoted : Str :=   -- "(p (UNEXPECTED '?') (UNEXPECTED '?') (i))"
+  ['(', 'p', ' ', '(', 'U', 'N', 'E', 'X', 'P', 'E', 'C', 'T', 'E', 'D', ' ', '\'', '?', '\'', ')', ' ',
+   '(', 'U', 'N', 'E', 'X', 'P', 'E', 'C', 'T', 'E', 'D', ' ', '\'', '?', '\'', ')', ' ', '(', 'i', ')', ')']
 
 /-- Witness (genuine defect, finding C20-format-sexp-quote-state): with the unchanged `format_sexp` an
 S-expression with two quoted tokens does not survive format → normalize … -/
-theorem format_sexp_quote_state : normalizeSexp (trim (formatSexp {} sxTwoQuoted)) ≠ sxTwoQuoted := by decide
+theorem format_sexp_quote_state : normalizeSexp (trim (formatSexp {} sxTwoQuoted)) ≠ sxTwoQuoted := by decide +kernel
 
 /-- … and does with the proposed repair. -/
-example : normalizeSexp (trim (formatSexp { quoteReset := true } sxTwoQuoted)) = sxTwoQuoted := by decide
+example : normalizeSexp (trim (formatSexp { quoteReset := true } sxTwoQuoted)) = sxTwoQuoted := by decide +kernel
 
 /-! ### non-vacuity and witnesses for the dropped hypotheses -/
 
